@@ -157,7 +157,7 @@ def run(ctx):
     monitors.set_sink(ctx)
     rigid.install()
 
-    n = ctx.pick(len(CLASSES) * 20, len(CLASSES) * 1500)
+    n = ctx.pick(len(CLASSES) * 20, len(CLASSES) * 5000)
     for i, rng in ctx.cases("objects", n):
         name = CLASSES[i % len(CLASSES)]
         G = Gen(rng)
@@ -254,7 +254,7 @@ def run(ctx):
 
     WHOLES = ["DynamicObstacle", "Scenario", "TrajectoryPrediction", "DynamicObstacle", "LaneletNetwork",
               "PlanningProblemSet", "PlanningProblem", "Scenario"]
-    n = ctx.pick(160, 24000)
+    n = ctx.pick(160, 100000)
     for i, rng in ctx.cases("parts", n):
         name = WHOLES[i % len(WHOLES)]
         G = Gen(rng)
